@@ -65,6 +65,7 @@ type Obligation struct {
 	SingleSection []string               `json:"single_section"`
 	Clock      string                    `json:"clock"`
 	GhostFS    bool                      `json:"ghost_fs"`
+	Expect     string                    `json:"expect"` // "violated": a sensitivity twin that MUST fail
 	guards     map[string]*Guard
 
 	pkgPath string
